@@ -22,7 +22,7 @@
 (***************************************************************************)
 EXTENDS ValuesProps, Json
 
-CONSTANTS Family,   \* "pair" | "deep" | "sub2" | "deepsub" | "sub3" | "flags" | "set"
+CONSTANTS Family,   \* "cli" | "mdoc" | "pair" | "deep" | "sub2" | "deepsub" | "sub3" | "flags" | "set"
           Full,     \* TRUE: leaves {scalar, null, list} at both depths; FALSE: lists only at depth 1
           SetPairs, \* TRUE: also --set expressions with two assignments
           Term      \* TRUE only in simulation configurations (see Next)
@@ -63,6 +63,16 @@ DeepSec  == << Unset,                                           \* the parent's 
                Mp([x \in {"a"} |-> Mp([y \in {"a"} |-> Null])]),
                Mp([x \in {"a"} |-> Mp([y \in {"a"} |-> Mp([z \in {"b"} |-> Sc("i:2")])])]) >>
 DeepSubUser == [i \in DOMAIN DeepUser |-> Mp(DeepUser[i])]
+
+(* ----- family: mdoc (a values file of two YAML documents) ------------------------------------ *)
+\* where the two-document file is: the user's -f file, the root chart's values.yaml, the subchart's
+MWhere == <<"file", "root", "sub">>
+MDoc1  == SetToSeq(MapsOver(A, W("s:d1")))
+MDoc2  == SetToSeq(MapsOver(A, W("s:d2")))
+\* the other source of the case (chart defaults for "file", the user's file otherwise)
+MOther == << <<>>, [x \in {"a"} |-> Mp([y \in AB |-> Sc("i:9")])], [x \in {"a"} |-> Mp([y \in {"b"} |-> Null])] >>
+\* the documents of one file are merged like consecutive -f files
+DocMerge(d1, d2) == Exp(<<Mp(d1), Mp(d2)>>, TRUE).m
 
 (* ----- family: flags ---------------------------------------------------- *)
 \* a flag expression: text (as typed on the command line), fam, and its meaning as user-level
@@ -154,12 +164,47 @@ SetBases == <<
   [x \in {"a.b", "b"} |-> Mp([y \in {"b"} |-> Sc("s:keep")])],
   [x \in {"a"} |-> Null] >>
 
+(* ----- family: cli (the flags as typed on a real `helm template` command line) ----------------- *)
+\* an option: texts = one flag occurrence per element; srcs = what the occurrences mean together.
+\* --set / --set-string / --set-json / --set-file take several assignments in one comma-separated
+\* flag or in several flags; --set-literal takes ONE assignment, everything after the first = is
+\* the value: commas, further = signs and backslashes included.
+NoCli == [texts |-> <<>>, srcs |-> <<>>]
+CliOpts(fam) ==
+  CASE fam = "json" ->
+         <<NoCli,
+           [texts |-> <<"a.a=1", "b=[1,2]">>, srcs |-> <<Asg(<<"a", "a">>, Sc("i:1")), Asg(<<"b">>, Li(<<Sc("i:1"), Sc("i:2")>>))>>],
+           [texts |-> <<"a.a=1,b=[1,2]">>,    srcs |-> <<Asg(<<"a", "a">>, Sc("i:1")), Asg(<<"b">>, Li(<<Sc("i:1"), Sc("i:2")>>))>>],
+           [texts |-> <<"a.b=\"j,k=l\"">>,   srcs |-> <<Asg(<<"a", "b">>, Sc("s:j,k=l"))>>] >>
+    [] fam = "set" ->
+         <<NoCli,
+           [texts |-> <<"a.a=s1", "b=s2">>,   srcs |-> <<Asg(<<"a", "a">>, Sc("s:s1")), Asg(<<"b">>, Sc("s:s2"))>>],
+           [texts |-> <<"a.a=s1,b=s2">>,      srcs |-> <<Asg(<<"a", "a">>, Sc("s:s1")), Asg(<<"b">>, Sc("s:s2"))>>],
+           [texts |-> <<"b=x\\,y">>,          srcs |-> <<Asg(<<"b">>, Sc("s:x,y"))>>] >>
+    [] fam = "str" ->
+         <<NoCli,
+           [texts |-> <<"a.b=1", "c=2">>,     srcs |-> <<Asg(<<"a", "b">>, Sc("s:1")), Asg(<<"c">>, Sc("s:2"))>>],
+           [texts |-> <<"a.b=1,c=2">>,        srcs |-> <<Asg(<<"a", "b">>, Sc("s:1")), Asg(<<"c">>, Sc("s:2"))>>] >>
+    [] fam = "file" ->
+         <<NoCli,
+           [texts |-> <<"a.c=@sf", "d=@sg">>, srcs |-> <<Asg(<<"a", "c">>, Sc("s:sf")), Asg(<<"d">>, Sc("s:sg"))>>],
+           [texts |-> <<"a.c=@sf,d=@sg">>,    srcs |-> <<Asg(<<"a", "c">>, Sc("s:sf")), Asg(<<"d">>, Sc("s:sg"))>>] >>
+    [] fam = "lit" ->
+         <<NoCli,
+           [texts |-> <<"conn=host=db,port=5432">>, srcs |-> <<Asg(<<"conn">>, Sc("s:host=db,port=5432"))>>],
+           [texts |-> <<"a.b=x\\,y\\z">>,       srcs |-> <<Asg(<<"a", "b">>, Sc("s:x\\,y\\z"))>>],
+           [texts |-> <<"c=1", "a.a={l},m">>,      srcs |-> <<Asg(<<"c">>, Sc("s:1")), Asg(<<"a", "a">>, Sc("s:{l},m"))>>] >>
+CliFile == << <<>>, [x \in {"a", "port"} |-> IF x = "a" THEN Mp([y \in AB |-> Sc("s:f1")]) ELSE Sc("i:80")] >>
+CliD    == [x \in {"a"} |-> Mp([y \in AB |-> Sc("i:1")])]
+
 (* ----- stages ----------------------------------------------------------- *)
 StageSets ==
   CASE Family = "pair"  -> <<PairD, PairF>>
     [] Family = "deep"  -> <<DeepOwn, DeepUser>>
     [] Family = "sub2"  -> <<SubOwn, SubSecA, SubUser>>
     [] Family = "deepsub" -> <<DeepOwn, DeepSec, DeepSubUser>>
+    [] Family = "mdoc"  -> <<MWhere, MOther, MDoc1, MDoc2>>
+    [] Family = "cli"   -> <<CliFile, CliOpts("json"), CliOpts("set"), CliOpts("str"), CliOpts("file"), CliOpts("lit")>>
     [] Family = "sub3"  -> <<SubOwn, SubSecA, SubSecB, SubUser>>
     [] Family = "flags" -> <<FlagD, FlagF1, FlagF2, Opts("json"), Opts("set"), Opts("str"),
                              Opts("file"), Opts("lit")>>
@@ -180,6 +225,25 @@ CaseOf(p) ==
          [charts |-> <<[name |-> "root", vals |-> Under("s1", ch(2))], [name |-> "s1", vals |-> ch(1)]>>,
           files |-> <<Under("s1", ch(3))>>, flags |-> NoFlags,
           usr |-> <<[p |-> <<>>, v |-> Mp(Under("s1", ch(3))), obj |-> TRUE]>>]
+    [] Family = "cli" ->
+         [charts |-> <<[name |-> "root", vals |-> CliD]>>, files |-> <<ch(1)>>,
+          flags |-> [f \in DOMAIN NoFlags |->
+                       LET i == CHOOSE j \in 1..5 : FlagFams[j] = f IN ch(1 + i).texts],
+          usr |-> <<[p |-> <<>>, v |-> Mp(ch(1)), obj |-> TRUE]>>
+                  \o ch(2).srcs \o ch(3).srcs \o ch(4).srcs \o ch(5).srcs \o ch(6).srcs]
+    [] Family = "mdoc" ->
+         LET docs == <<Mp(ch(3)), Mp(ch(4))>>
+             both == DocMerge(ch(3), ch(4))
+             obj(f) == [p |-> <<>>, v |-> Mp(f), obj |-> TRUE] IN
+         CASE ch(1) = "file" ->
+                [charts |-> <<[name |-> "root", vals |-> ch(2)]>>, files |-> <<both>>, filedocs |-> <<docs>>,
+                 flags |-> NoFlags, usr |-> <<obj(ch(3)), obj(ch(4))>>]
+           [] ch(1) = "root" ->
+                [charts |-> <<[name |-> "root", vals |-> both, docs |-> docs]>>, files |-> <<ch(2)>>,
+                 flags |-> NoFlags, usr |-> <<obj(ch(2))>>]
+           [] OTHER ->
+                [charts |-> <<[name |-> "root", vals |-> <<>>], [name |-> "s1", vals |-> both, docs |-> docs]>>,
+                 files |-> <<Under("s1", Mp(ch(2)))>>, flags |-> NoFlags, usr |-> <<obj(Under("s1", Mp(ch(2))))>>]
     [] Family = "sub3" ->
          [charts |-> <<[name |-> "root", vals |-> Under("s1", IF IsSet(ch(3)) THEN Mp(Under("s2", ch(3))) ELSE Unset)],
                        [name |-> "s1", vals |-> Under("s2", ch(2))],
@@ -225,8 +289,13 @@ CodeMerge(c) ==
   IF Family = "set" THEN CodeParseInto(c.expr.toks, c.files[1])
   ELSE CodeMergeFrom(c.usr, 1, <<>>)
 
+\* loader.LoadValues: the documents of a values.yaml are folded with MergeMaps
+CodeCharts(c) == [i \in DOMAIN c.charts |->
+                    IF "docs" \in DOMAIN c.charts[i]
+                    THEN [name |-> c.charts[i].name, vals |-> MergeMaps(c.charts[i].docs[1].m, c.charts[i].docs[2].m)]
+                    ELSE c.charts[i]]
 CodeRoot(c) == LET m == CodeMerge(c) IN
-               IF ~m.ok THEN m ELSE CoalesceValues(Nest(c.charts, 1), m.v)
+               IF ~m.ok THEN m ELSE CoalesceValues(Nest(CodeCharts(c), 1), m.v)
 
 (* ----- the model check --------------------------------------------------- *)
 \* Classes of difference between code-shaped and property-shaped, exported with the case and
@@ -254,11 +323,13 @@ Diffs(c) ==
                               : i \in 1..Len(c.charts)})
 
 (* ----- JSON ---------------------------------------------------------------- *)
-ChartsJ(c) == [i \in DOMAIN c.charts |-> [name |-> c.charts[i].name, vals |-> Mp(c.charts[i].vals)]]
+ChartsJ(c) == [i \in DOMAIN c.charts |-> [name |-> c.charts[i].name, vals |-> Mp(c.charts[i].vals),
+                                          docs |-> IF "docs" \in DOMAIN c.charts[i] THEN c.charts[i].docs ELSE <<>>]]
 CaseJ(p) ==
   LET c == CaseOf(p) IN
   [id |-> CaseId(p), fam |-> Family, charts |-> ChartsJ(c),
    files |-> [i \in DOMAIN c.files |-> Mp(c.files[i])], flags |-> c.flags,
+   filedocs |-> IF "filedocs" \in DOMAIN c THEN c.filedocs ELSE <<>>,
    usr |-> c.usr, asgs |-> IF Family = "set" THEN c.expr.asgs ELSE <<>>,
    exp |-> IF Family = "set" THEN SetExpected(c.files[1], c.expr)
            ELSE [conflict |-> RefusalAllowedUser(c), v |-> <<>>],
